@@ -356,7 +356,11 @@ pub fn eval(e: &IExpr, refs: &[V]) -> Result<V, ()> {
                     match op {
                         BinOp::Add => arith(x + y)?,
                         BinOp::Sub => arith(x - y)?,
-                        BinOp::Mul => arith(x * y)?,
+                        BinOp::Mul => match x.checked_mul(y) {
+                            Some(r) => arith(r)?,
+                            None if t.signed => return Err(()),
+                            None => t.wrap(((x as u128).wrapping_mul(y as u128) & (u64::MAX as u128)) as i128),
+                        },
                         BinOp::Div => {
                             if y == 0 {
                                 return Err(());
@@ -393,7 +397,8 @@ pub fn eval(e: &IExpr, refs: &[V]) -> Result<V, ()> {
 pub fn eval_untyped(e: &IExpr, refs: &[Option<i64>]) -> Option<i64> {
     Some(match e {
         IExpr::Lit { v, .. } => *v as i64,
-        IExpr::Chr(_) => return None,
+        // a character constant counts as its (unsigned) byte
+        IExpr::Chr(c) => *c as i64,
         IExpr::Ref(i) => {
             if refs.is_empty() {
                 return None;
@@ -551,6 +556,24 @@ fn render_atom(e: &IExpr, names: &[String], cpp: bool) -> String {
         // `- -1` and `-(-1)`: never let two signs touch
         IExpr::Un(..) => format!("({})", render(e, names, cpp)),
         _ => render(e, names, cpp),
+    }
+}
+
+/// indices (into a pool of `n` earlier integer macros) that `e` refers to
+pub fn ref_indices(e: &IExpr, n: usize, out: &mut Vec<usize>) {
+    match e {
+        IExpr::Ref(i) if n > 0 => out.push((*i as usize * n) >> 16),
+        IExpr::Un(_, a) | IExpr::Cast(_, a) => ref_indices(a, n, out),
+        IExpr::Bin(_, a, b) => {
+            ref_indices(a, n, out);
+            ref_indices(b, n, out);
+        }
+        IExpr::Cond(c, a, b) => {
+            ref_indices(c, n, out);
+            ref_indices(a, n, out);
+            ref_indices(b, n, out);
+        }
+        _ => {}
     }
 }
 
@@ -719,6 +742,39 @@ pub enum FExpr {
     Neg(Box<FExpr>),
     /// 0 + 1 - 2 * 3 /
     Bin(u8, Box<FExpr>, Box<FExpr>),
+}
+
+fn f_int_typed(e: &FExpr) -> bool {
+    match e {
+        FExpr::Int(_) => true,
+        FExpr::Lit(..) | FExpr::Ref(_) => false,
+        FExpr::Neg(a) => f_int_typed(a),
+        FExpr::Bin(_, a, b) => f_int_typed(a) && f_int_typed(b),
+    }
+}
+
+/// Integers only take part next to a floating operand, so that the macro has a floating type
+/// in C and no integer division can be undefined.
+pub fn ffix(e: FExpr) -> FExpr {
+    fn go(e: FExpr) -> FExpr {
+        match e {
+            FExpr::Neg(a) => FExpr::Neg(Box::new(go(*a))),
+            FExpr::Bin(o, a, b) => {
+                let (mut a, b) = (go(*a), go(*b));
+                if f_int_typed(&a) && f_int_typed(&b) {
+                    a = FExpr::Lit(2, 0);
+                }
+                FExpr::Bin(o, Box::new(a), Box::new(b))
+            }
+            other => other,
+        }
+    }
+    let e = go(e);
+    if f_int_typed(&e) {
+        FExpr::Lit(2, 0)
+    } else {
+        e
+    }
 }
 
 pub fn frender(e: &FExpr, names: &[String]) -> String {
